@@ -10,6 +10,7 @@ import JaqalProofs.Lemmas.PassesLegalSubs
 import JaqalProofs.Lemmas.PassesLegalMacros
 import JaqalProofs.Lemmas.PassesLegalRebuild
 import JaqalProofs.Lemmas.PassesLegalDeep
+import JaqalProofs.Lemmas.PassesIdem
 /-!
 # C10 — the passes commute up to meaning, are idempotent, and the parser's flags are the passes
 
@@ -43,11 +44,11 @@ Specification of meaning: `Sem.meaning` (`JaqalModel/Spec/Sem.lean`).
                         allowed: the hypothesis is on membership only).
 * `C10_comm_let_macros`, `C10_comm_let_subs`, `C10_comm_macros_subs`, `C10_comm_map_macros`, `C10_comm_map_subs`,
   `C10_comm_let_map` — the six pairwise instances.
-* `C10_idempotent_macros`, `C10_idempotent_subs` — `P (P c) = P c` (from C04, C09); `C10_idempotent_meaning` — for EVERY
-  pass, applying it twice means what applying it once means.  `C10_idempotent_let_full` / `_map_full` (syntactic
-  idempotence of the two rebuilding passes) are kept as definitions: NOT proved (needs totality and determinacy of the
-  builder's choice of gate definitions on re-build; `C05_idempotent_val` is the value-level half); checked by the
-  differential test's oracle `idempotent` on the real code.
+* `C10_idempotent`      `P (P c) = P c` for all four passes: `C10_idempotent_macros`, `C10_idempotent_subs` (from C04, C09),
+                        `C10_idempotent_let` (any second override dictionary; also closes `C05_idempotent_full`) and
+                        `C10_idempotent_map` (`Lemmas/PassesIdem.lean`: the second run writes the same S-expression, and
+                        the builder cannot tell the two configurations apart).  `C10_idempotent_meaning`: the
+                        meaning-level corollary.
 * `C10_flags`           `parseWithFlags` is `build`, then `applySeq (flagPasses …)`, then the register-count check, with
                         `RecursionError` converted (by definition); `C10_flags_plain`; `C10_flags_ok`: on success the
                         result IS the passes applied to the plain parse (the check commutes with the passes: they keep
@@ -64,10 +65,6 @@ Specification of meaning: `Sem.meaning` (`JaqalModel/Spec/Sem.lean`).
 
 ## What is NOT proved
 
-* `C10_idempotent_let_full` / `C10_idempotent_map_full`: the SYNTACTIC idempotence of the two rebuilding passes (needs
-  `build (unbuild c) = c` for the embedded-object S-expressions the visitors make: totality and determinacy of the rebuild;
-  `Lemmas/BuilderTotal.lean` covers parser-shaped input only).  The meaning-level statement `C10_idempotent_meaning` is
-  proved for all four passes; the differential test checks the syntactic one on the real code (oracle `idempotent`).
 * that a parser-produced circuit is `Legal` (the builder establishes `ExpandMacros.WellFormed`: `built_gateShape` is the gate
   half; the value half — `okVal` / `goodVal` of built values, `inScope` — is open, see `Lemmas/BuiltWellFormed.lean`).
 
@@ -353,23 +350,40 @@ theorem C10_idempotent_macros (p : Bool) (c c' : Circuit) (hL : Legal c) (h : ap
 theorem C10_idempotent_subs (c c' : Circuit) (h : apply .subs c = .ok c') : apply .subs c' = .ok c' :=
   ExpandSubcircuits.C09_idempotent h
 
-/-- NOT proved: a second `fill_in_let` (any overrides) returns the circuit unchanged (= `C05_idempotent_full`). The values
-are fixed points (`C05_idempotent_val`); missing is that the second REBUILD succeeds and chooses the same gate definitions. -/
+/-- a second `fill_in_let` (any overrides) returns the circuit unchanged (proved: `C10_idempotent_let`) -/
 def C10_idempotent_let_full : Prop :=
   ∀ (ov ov2 : List (String × Num)) (c c' : Circuit), Legal c → apply (.let_ ov) c = .ok c' → apply (.let_ ov2) c' = .ok c'
 
-/-- NOT proved: a second `fill_in_map` returns the circuit unchanged (same gap: the rebuild). -/
+/-- a second `fill_in_map` returns the circuit unchanged (proved: `C10_idempotent_map`) -/
 def C10_idempotent_map_full : Prop :=
   ∀ (c c' : Circuit), Legal c → apply .map c = .ok c' → apply .map c' = .ok c'
 
-/-- **C10_idempotent** (partial: the two rebuilding passes by hypothesis) -/
-theorem C10_idempotent_partial (hl : C10_idempotent_let_full) (hm : C10_idempotent_map_full) (p : Pass) (c c' : Circuit)
-    (hL : Legal c) (h : apply p c = .ok c') : apply p c' = .ok c' := by
+/-- **`fill_in_let` twice — with ANY second override dictionary — is `fill_in_let` once**: every value of the result is a
+fixed point of the visitors (`C05_idempotent_val`), so the second run hands the builder the very S-expression of the first
+(`visitStmts_fixed`), under a configuration the builder cannot tell from the first (`rebuildCfg_congr`: the normalised
+gate list instead of the original).  Only `FillIn.WellFormed` of the input is needed. -/
+theorem C10_idempotent_let : C10_idempotent_let_full :=
+  fun ov ov2 c c' hL h => fillInLet_idempotent ov ov2 c c' hL.wf2 h
+
+/-- **`fill_in_map` twice is `fill_in_map` once** -/
+theorem C10_idempotent_map : C10_idempotent_map_full :=
+  fun c c' hL h => fillInMap_idempotent c c' hL.wf2 h
+
+/-- the statement C05 left open (`Props/C05.lean: C05_idempotent_full`), closed -/
+theorem C05_idempotent : FillIn.C05_idempotent_full :=
+  fun ov ov2 c c' hw h => fillInLet_idempotent ov ov2 c c' hw h
+
+/-- **C10_idempotent**: applying a pass twice gives the same circuit as applying it once — all four passes -/
+theorem C10_idempotent (p : Pass) (c c' : Circuit) (hL : Legal c) (h : apply p c = .ok c') : apply p c' = .ok c' := by
   cases p with
-  | let_ ov => exact hl ov ov c c' hL h
+  | let_ ov => exact C10_idempotent_let ov ov c c' hL h
   | macros pr => exact C10_idempotent_macros pr c c' hL h
   | subs => exact C10_idempotent_subs c c' h
-  | map => exact hm c c' hL h
+  | map => exact C10_idempotent_map c c' hL h
+
+/-- (kept for reference: the conditional form of the previous round) -/
+theorem C10_idempotent_partial (_hl : C10_idempotent_let_full) (_hm : C10_idempotent_map_full) (p : Pass) (c c' : Circuit)
+    (hL : Legal c) (h : apply p c = .ok c') : apply p c' = .ok c' := C10_idempotent p c c' hL h
 
 /-- **C10_idempotent_meaning** (all four passes, proved): applying a pass a second time does not change the meaning. -/
 theorem C10_idempotent_meaning (ρ : Env) (p : Pass) (c c1 c2 : Circuit) (s : Sem) (happ : Applicable ρ [p, p] c)
@@ -776,6 +790,10 @@ end Jaqal.Passes
 #print axioms Jaqal.Passes.C10_comm_let_map_side
 #print axioms Jaqal.Passes.C10_idempotent_macros
 #print axioms Jaqal.Passes.C10_idempotent_subs
+#print axioms Jaqal.Passes.C10_idempotent_let
+#print axioms Jaqal.Passes.C10_idempotent_map
+#print axioms Jaqal.Passes.C05_idempotent
+#print axioms Jaqal.Passes.C10_idempotent
 #print axioms Jaqal.Passes.C10_idempotent_partial
 #print axioms Jaqal.Passes.C10_idempotent_meaning
 #print axioms Jaqal.Passes.C10_flags
